@@ -18,7 +18,7 @@ LEVEL = "exploration"
 RULE = ("messages of 0..3 blocks (thorough: up to 40) sent in alternating directions between two real SecsIProtocol "
         "endpoints over a simulated line with chunkings (whole, every byte, random cuts); one header/data/checksum byte "
         "flipped in flight at every position of a single-block and a two-block message (enumerated) and at random "
-        "positions otherwise; distinct by (direction, size, chunking, corruption position); all non-trivial; plus: 3-5 block messages over a slow line (pauses of 0.45-0.8 T4 between blocks, more than T4 in total)")
+        "positions otherwise; distinct by (direction, size, chunking, corruption position); all non-trivial; plus: 3-5 block messages over a slow line (pauses of 0.45-0.8 T4 between blocks, more than T4 in total); 2-3 threads of one endpoint sending 1-4 block messages at the same time, their blocks alternating on the line (one side transmitting, every block with its handshake)")
 ASSUMPTIONS = ["only one side transmits at a time (the harness serialises transfers, as the statement assumes)",
                "retries, T1/T2/T4 time-outs and ENQ contention are outside the statement",
                "a corrupted length byte may leave both ends waiting; there only 'success' and 'delivery' are forbidden"]
@@ -29,7 +29,8 @@ TECHNIQUE = "runtime trace checker over a recorded line trace + in-flight byte-f
 SHARDS = {"quick": 8, "thorough": 16}
 TIMEOUT = {"quick": 300, "thorough": 3000}
 FLOORS = {"transfer.clean.host_to_equipment": 50, "transfer.clean.equipment_to_host": 50, "transfer.corrupted": 20,
-          "oracle.trace_blocks": 200, "enumerated.corruption_positions": 100}
+          "oracle.trace_blocks": 200, "enumerated.corruption_positions": 100,
+          "transfer.concurrent_senders_blocks_alternated": 8}
 
 
 class Line:
@@ -241,6 +242,93 @@ def _slow_line(ctx, header_only, rounds):
             end.close()
 
 
+def _concurrent_senders(ctx, header_only, rounds):
+    """Several threads of one endpoint send multi-block messages at the same time: their blocks alternate on the line (every block
+    carries the system bytes of its message, every block goes through the complete handshake).  Each message whose send reports
+    success arrives exactly once and intact, and the handshake trace stays well-formed."""
+    import secsgem.secsi.header as SH
+    import secsgem.secsi.message as SM
+
+    rng = ctx.rng
+    line = _new_line()
+    try:
+        for _ in range(rounds):
+            src = rng.choice("HE")
+            dst = "E" if src == "H" else "H"
+            sender, receiver = line.ends[src], line.ends[dst]
+            line.reset()
+            line.chunker = None
+            before = len(receiver.delivered)
+            k = rng.choice([2, 2, 3])
+            msgs = []
+            for _j in range(k):
+                nb = rng.choice([1, 2, 3, 4])
+                body = rng.randbytes(max(1, nb * 244 - rng.randint(0, 243)))
+                sf = rng.choice(header_only)
+                header = SH.SecsIHeader(sender.protocol.get_next_system_counter(), rng.randint(0, 0x7FFF), sf[0], sf[1], 0, src == "E", False)
+                msgs.append((header, body, SM.SecsIMessage(header, body)))
+            results = [None] * k
+            go = threading.Event()
+
+            def run(j):
+                go.wait()
+                try:
+                    results[j] = sender.protocol.send_message(msgs[j][2])
+                except Exception as exc:
+                    results[j] = repr(exc)
+
+            ths = [threading.Thread(target=stuck.harness_thread(lambda j=j: run(j)), daemon=True, name=f"harness-sender-{j}") for j in range(k)]
+            for th in ths:
+                th.start()
+            go.set()
+            for th in ths:
+                th.join(15.0)
+            ctx.count("transfer.concurrent_senders_rounds")
+            ctx.count("transfer.concurrent_senders_messages", k)
+            wit = {"direction": f"{src}->{dst}", "messages": [(h.system, len(m.blocks)) for h, _b, m in msgs], "results": [r if not isinstance(r, bool) else r for r in results]}
+            if any(th.is_alive() for th in ths):
+                if stuck.blocked_forever([th for th in ths if th.is_alive()], watch=0.5):
+                    ctx.violation("send-call-blocked-forever:concurrent-senders", {**wit, "stacks": stuck.stacks()})
+                else:
+                    ctx.unsure("concurrent send calls did not return within 15 s but threads are still moving")
+                line = _new_line()
+                continue
+            if any(r is not True for r in results):
+                ctx.violation("clean-transfer-reported-failure:concurrent-senders", wit)
+                line = _new_line()
+                continue
+            receiver.wait(lambda: len(receiver.delivered) >= before + k, timeout=3.0)
+            if len(receiver.delivered) < before + k:
+                receiver.confirm_absent(lambda: len(receiver.delivered) >= before + k)
+            time.sleep(0.002)
+            got = receiver.delivered[before:]
+            with line.lock:
+                trace = list(line.trace)
+            blocks, err = check_trace(trace)
+            ctx.count("oracle.trace_blocks", len(blocks))
+            # did the blocks really alternate?
+            order = [(wire.secs1_parse_block(b) or ({"system": None},))[0]["system"] for _s, b, _a in blocks]
+            if len(set(order)) > 1 and any(order[i] != order[i + 1] and order[i] in order[i + 1:] for i in range(len(order) - 1)):
+                ctx.count("transfer.concurrent_senders_blocks_alternated")
+            tw = {**wit, "block_order": order[:16], "delivered": [(g["system"], len(g["body"])) for g in got]}
+            if err:
+                ctx.violation("line-trace-violates-handshake:concurrent-senders", {**tw, "error": err})
+            for header, body, _m in msgs:
+                mine = [g for g in got if g["system"] == header.system]
+                if len(mine) != 1:
+                    ctx.violation("success-but-not-delivered-exactly-once:concurrent-senders", {**tw, "system": header.system, "times": len(mine)})
+                    break
+                g = mine[0]
+                if g["body"] != body or (g["stream"], g["function"], g["device_id"]) != (header.stream, header.function, header.device_id):
+                    ctx.violation("delivered-message-differs:concurrent-senders", {**tw, "system": header.system, "body_equal": g["body"] == body})
+                    break
+            if len(got) > k:
+                ctx.violation("more-messages-delivered-than-sent:concurrent-senders", tw)
+    finally:
+        for end in line.ends.values():
+            end.close()
+
+
 def run(ctx):
     from lib import gen
     from secsgem.secs.functions._all import secs_streams_functions
@@ -278,6 +366,7 @@ def run(ctx):
                     line = _new_line()
     ctx.exhaustive["corruption_position_of_two_fixed_messages"] = True
     _slow_line(ctx, header_only, 2 if ctx.quick else 40)
+    _concurrent_senders(ctx, header_only, 6 if ctx.quick else 300)
     n = 300 if ctx.quick else 10000
     max_blocks = 3 if ctx.quick else 40
     from lib import sched
